@@ -812,6 +812,56 @@ Definition dump_diff (tag : string) (a b : dump) : list string :=
   (if list_eqb (opt_eqb r3l_eqb) (d_apply a) (d_apply b) then [] else [(tag ++ "GetRulesForApplyRegion")%string]) ++
   (if list_eqb keyl_eqb (d_split a) (d_split b) then [] else [(tag ++ "GetSplitKeys")%string]).
 
+(* ---------- frame: an accepted update removes, replaces and adds only what it names ----------
+   Judged on the implementation's own answers (GetAllRules / GetRuleGroups before and after), without the
+   model: a rule that is no longer served must have the key of a rule the update carries, or be named by a
+   deletion (its key; its group and a prefix of its id; its group, for the bundle operations; "all" for a
+   full replacement); group ids are compared for EQUALITY (a plain id is not a pattern). A rule that appears
+   must be one the update carries. A group configuration other than the default one is changed or dropped
+   only for a group the update names. *)
+Definition names_group (u : update) (g : id) : bool :=
+  (fix go (u : update) : bool :=
+     match u with
+     | USetGroup x => key_eqb (g_id x) g
+     | UDeleteGroup x => key_eqb x g
+     | USetBundle b => key_eqb (b_id b) g
+     | USetAllBundles bs ov => ov || existsb (fun b => key_eqb (b_id b) g) bs
+     | UDeleteBundle x => key_eqb x g
+     | UWithStores _ u' => go u'
+     | _ => false
+     end) u.
+
+Definition names_key (u : update) (g i : id) : bool :=
+  existsb (fun x => key_eqb (r_gid x) g && key_eqb (r_id x) i) (rules_of_update u) ||
+  (fix go (u : update) : bool :=
+     match u with
+     | UDeleteRule g' i' => key_eqb g' g && key_eqb i' i
+     | UBatch ops => existsb (fun o => match o with
+                                       | BDel g' i' false => key_eqb g' g && key_eqb i' i
+                                       | BDel g' i' true => key_eqb g' g && is_prefix i' i
+                                       | BAdd _ => false
+                                       end) ops
+     | USetBundle b => key_eqb (b_id b) g
+     | USetAllBundles bs ov => ov || existsb (fun b => key_eqb (b_id b) g) bs
+     | UDeleteBundle g' => key_eqb g' g
+     | UWithStores _ u' => go u'
+     | _ => false
+     end) u.
+Definition names_rule (u : update) (r : rule) : bool := names_key u (r_gid r) (r_id r).
+
+Definition g3_default (g : id * Z * bool) : bool := let '(_, x, o) := g in (x =? 0)%Z && negb o.
+
+Definition monitor_frame (known : list rule) (u : update) (p l : dump) : list string :=
+  let gone := filter (fun x => negb (existsb (r3_eqb x) (d_all l))) (d_all p) in
+  let come := filter (fun x => negb (existsb (r3_eqb x) (d_all p))) (d_all l) in
+  (if forallb (fun x => match find_rule known x with Some r => names_rule u r | None => true end) gone
+   then [] else ["C13:accepted-update-removed-a-rule-it-does-not-name"]) ++
+  (if forallb (fun x => existsb (fun r => r3_eqb (rule3 r) x) (rules_of_update u)) come
+   then [] else ["C13:accepted-update-added-a-rule-it-does-not-carry"]) ++
+  (let changed a b := filter (fun g => negb (g3_default g) && negb (existsb (g3_eqb g) b)) a in
+   if forallb (fun g => names_group u (fst (fst g))) (changed (d_groups p) (d_groups l) ++ changed (d_groups l) (d_groups p))
+   then [] else ["C13:accepted-update-changed-a-group-it-does-not-name"]).
+
 Definition is_fault_free (o : op) : bool :=
   match o with
   | OUpdate _ None _ => true
@@ -847,14 +897,16 @@ Fixpoint monitor_walk (known : list rule) (prev : option dump) (clean retryable 
         | OUpdate _ _ _, RErr EStorage, Some p, Some l => dump_diff "C13:failed-save-changed-" p l
         | OUpdate _ _ _, RErr _, Some p, Some l => dump_diff "C13:rejected-update-changed-" p l
         | ORetry _ _, RErr _, Some p, Some l => dump_diff "C13:rejected-update-changed-" p l
-        | OUpdate _ _ _, ROk, _, Some l =>
+        | OUpdate u _ _, ROk, pv, Some l =>
             (if fault_hit then ["C13:acknowledged-with-failed-write"] else []) ++
+            (match pv with Some p => monitor_frame known u p l | None => [] end) ++
             monitor_index known l ++ monitor_coverage known l ++
             (if clean' then match o_reload b with
                             | Some r => dump_diff "C13:restart-loads-different-" l r
                             | None => ["C13:restart-fails-after-accepted-update"]
                             end else [])
-        | ORetry _ _, ROk, _, Some l =>
+        | ORetry u _, ROk, pv, Some l =>
+            (match pv with Some p => monitor_frame known u p l | None => [] end) ++
             monitor_index known l ++ monitor_coverage known l ++
             (if clean' then match o_reload b with
                             | Some r => dump_diff "C13:retry-does-not-converge-" l r
